@@ -356,6 +356,7 @@ structure PCfg where
   ups : List PUp
   cb : Bool := false   -- a circuit breaker is configured (`h.CB`, handed to every upstream by `provisionUpstream`)
   rm : Nat := 0        -- `lb_retry_match`: 0 = none, else one matcher set `method`: 1 = POST, 2 = GET, 3 = GET POST
+  strike : List Nat := []  -- positions of the upstreams whose backend answers with a status listed in `unhealthy_status`
 deriving DecidableEq, Repr
 
 /-- are passive health checks configured at all (then every upstream gets the policy)? -/
@@ -389,6 +390,7 @@ inductive Ev where
   | fin (k : Nat)             -- the backend answers the k-th held request
   | trip                      -- the circuit breaker opens (`OK()` = false)
   | untrip                    -- … and closes again
+  | fail (k : Nat)            -- the round trip of the k-th held request ends with an error (not a dial error)
 deriving DecidableEq, Repr
 
 /-- the error the loop carries from one iteration to the next -/
@@ -410,6 +412,7 @@ inductive EvOut where
   | req (tried : List (Option Nat)) (fin : Final)
   | done            -- a held request completed
   | idle            -- that request was not in flight (it had been refused, or completed before)
+  | late (tried : List (Option Nat)) (fin : Final)  -- a held request whose round trip failed: the rest of its proxy loop
 deriving DecidableEq, Repr
 
 structure PState where
@@ -419,6 +422,7 @@ structure PState where
   held : List (Option Nat)    -- per held-request so far: the address it is in flight on
   draws : List Nat
   cb : Option Bool := none    -- the handler's circuit breaker, if one is configured: is it closed?
+  info : List (Nat × Bool) := []  -- per held-request so far: the retries it had left when it was held, and is it a GET
 deriving DecidableEq, Repr
 
 /-- the pool `Select` sees in state `s`: every upstream consults the handler's circuit breaker -/
@@ -478,11 +482,16 @@ def errAt (c : PCfg) (i : Nat) : PErr := if badAt c.ups i = 1 then .dial else .o
 def afterFail (c : PCfg) (s : PState) (i : Nat) : PState :=
   { afterSel c s with fails := dropFails c s.held (if c.fd then incAt s.fails i else s.fails) }
 
+/-- `reverseProxy` after the round trip: a response whose status is listed in `unhealthy_status`
+    is a strike against the upstream (`countFailure`), although it is passed on to the client -/
+def strikeInc (c : PCfg) (fails : List Nat) (i : Nat) : List Nat :=
+  if c.fd && c.strike.contains i then incAt fails i else fails
+
 /-- after the round trip to `i` succeeded (and the request stays there if it is held) -/
 def afterSent (c : PCfg) (hold : Bool) (s : PState) (i : Nat) : PState :=
   { afterSel c s with
     loads := if hold then incAt s.loads i else s.loads,
-    fails := if hold then s.fails else dropFails c s.held s.fails,
+    fails := if hold then s.fails else dropFails c s.held (strikeInc c s.fails i),
     held := if hold then s.held ++ [some i] else s.held }
 
 /-- the proxy loop for one request: first argument = retries still allowed (`lb_retries` minus the
@@ -512,8 +521,8 @@ def attempt (c : PCfg) (hold get : Bool) : Nat → PErr → PState → List (Opt
     | .starved => ([], .starved, s)
     | _ => ([], .crashed, s)
 
-/-- one event -/
-def pstep (c : PCfg) (s : PState) : Ev → EvOut × PState
+/-- one event, without the failing release of a held request -/
+def pstep0 (c : PCfg) (s : PState) : Ev → EvOut × PState
   | .arrive hold get =>
     (.req (attempt c hold get c.retries .none s).1 (attempt c hold get c.retries .none s).2.1,
       match (attempt c hold get c.retries .none s).2.1 with
@@ -525,17 +534,46 @@ def pstep (c : PCfg) (s : PState) : Ev → EvOut × PState
     match s.held[k]? with
     | some (some i) =>
       (.done, { s with loads := decAt s.loads i, held := setNone s.held k,
-                        fails := dropFails c (setNone s.held k) s.fails })
+                        fails := dropFails c (setNone s.held k) (strikeInc c s.fails i) })
     | _ => (.idle, s)
   | .trip => (.done, { s with cb := s.cb.map (fun _ => false) })
   | .untrip => (.done, { s with cb := s.cb.map (fun _ => true) })
+  | .fail _ => (.idle, s)
+
+/-- a held request remembers where in its proxy loop it is -/
+def addInfo (hold : Bool) (x : Nat × Bool) (s : PState) : PState :=
+  if hold then { s with info := s.info ++ [x] } else s
+
+/-- the state right after the round trip of the held request on `i` has failed: `countRequest(-1)`,
+    `countFailure`, end of the iteration -/
+def afterLateFail (c : PCfg) (s : PState) (k i : Nat) : PState :=
+  { s with loads := decAt s.loads i, held := setNone s.held k,
+           fails := dropFails c (setNone s.held k) (if c.fd then incAt s.fails i else s.fails) }
+
+/-- one event. A held request whose round trip fails in the end (`fail k`) is where every other
+    failed iteration is: the failure is counted — whatever has happened to the upstream in the
+    meantime — and `tryAgain` decides with the retries the request had left -/
+def pstep (c : PCfg) (s : PState) : Ev → EvOut × PState
+  | .arrive hold get =>
+    ((pstep0 c s (.arrive hold get)).1,
+      addInfo hold (c.retries - (attempt c hold get c.retries .none s).1.length, get) (pstep0 c s (.arrive hold get)).2)
+  | .fail k =>
+    match s.held[k]?, s.info[k]? with
+    | some (some i), some (left, get) =>
+      if tryAgain left .other (retryable c get) then
+        (.late (some i :: (attempt c false get (left - 1) .other (afterLateFail c s k i)).1)
+            (attempt c false get (left - 1) .other (afterLateFail c s k i)).2.1,
+          (attempt c false get (left - 1) .other (afterLateFail c s k i)).2.2)
+      else (.late [some i] (.status 502), afterLateFail c s k i)
+    | _, _ => (.idle, s)
+  | e => pstep0 c s e
 
 def prun (c : PCfg) : PState → List Ev → List EvOut × PState
   | s, [] => ([], s)
   | s, e :: es => ((pstep c s e).1 :: (prun c (pstep c s e).2 es).1, (prun c (pstep c s e).2 es).2)
 
 def pinit (p : Policy) (c : PCfg) (ds : List Nat) : PState :=
-  ⟨p, c.ups.map (fun _ => 0), c.ups.map (fun _ => 0), [], ds, if c.cb then some true else none⟩
+  ⟨p, c.ups.map (fun _ => 0), c.ups.map (fun _ => 0), [], ds, if c.cb then some true else none, []⟩
 
 /-! ### active health checks: when the `healthy` flag flips
 (healthchecks.go `doActiveHealthCheck`: `markHealthy` / `markUnhealthy`; `Provision`: `passes` and
